@@ -464,8 +464,51 @@ pub fn vx_min_u8(a: u8, b: u8) -> (r: u8) ensures r == (if a <= b { a } else { b
 pub uninterp spec fn dur_secs(d: std::time::Duration) -> u64;
 pub assume_specification [std::time::Duration::as_secs] (d: &std::time::Duration) -> (r: u64) ensures r == dur_secs(*d);
 
-/// the text a Duration argument is written as (seconds with three decimals); uninterpreted. ASSUMED: digits and one dot only
-pub uninterp spec fn dur_arg_text(d: std::time::Duration) -> Seq<char>;
-pub broadcast axiom fn dur_arg_text_chars(d: std::time::Duration)
-    ensures (#[trigger] dur_arg_text(d)).len() > 0, forall|i: int| 0 <= i < dur_arg_text(d).len() ==> ('0' <= #[trigger] dur_arg_text(d)[i] && dur_arg_text(d)[i] <= '9') || dur_arg_text(d)[i] == '.';
+/// nanoseconds of a duration; uninterpreted. ASSUMED: what `as_nanos` returns, at most u64::MAX seconds + 999_999_999 ns
+pub uninterp spec fn dur_nanos(d: std::time::Duration) -> nat;
+pub assume_specification [std::time::Duration::as_nanos] (d: &std::time::Duration) -> (r: u128)
+    ensures r == dur_nanos(*d), r <= 18_446_744_073_709_551_615u128 * 1_000_000_000 + 999_999_999;
+pub open spec fn digit_char(n: nat) -> char { if n == 0 { '0' } else if n == 1 { '1' } else if n == 2 { '2' } else if n == 3 { '3' } else if n == 4 { '4' } else if n == 5 { '5' } else if n == 6 { '6' } else if n == 7 { '7' } else if n == 8 { '8' } else { '9' } }
+/// `{:03}` of a number below 1000: exactly three digits
+pub open spec fn pad3(n: nat) -> Seq<char> { seq![digit_char(n / 100 % 10), digit_char(n / 10 % 10), digit_char(n % 10)] }
+/// [C15 oracle] the text a Duration argument is written as: seconds with three decimals, rounded half-up to the millisecond
+pub open spec fn dur_arg_text(d: std::time::Duration) -> Seq<char> {
+    let m = (dur_nanos(d) + 500_000) / 1_000_000;
+    dec_text(m / 1000) + seq!['.'] + pad3(m % 1000)
+}
+/// digits and one dot only (proved from the assumption on Display of integers)
+pub broadcast proof fn dur_arg_text_chars(d: std::time::Duration)
+    ensures (#[trigger] dur_arg_text(d)).len() > 0, forall|i: int| 0 <= i < dur_arg_text(d).len() ==> ('0' <= #[trigger] dur_arg_text(d)[i] && dur_arg_text(d)[i] <= '9') || dur_arg_text(d)[i] == '.'
+{
+    broadcast use dec_text_digits;
+    let m = (dur_nanos(d) + 500_000) / 1_000_000;
+    let a = dec_text(m / 1000); let t = dur_arg_text(d);
+    assert forall|i: int| 0 <= i < t.len() implies ('0' <= #[trigger] t[i] && t[i] <= '9') || t[i] == '.' by {
+        if i < a.len() { assert(t[i] == a[i]); } else if i == a.len() { assert(t[i] == '.'); } else { assert(t[i] == pad3(m % 1000)[i - a.len() - 1]); }
+    }
+}
+/// N9 putters for u128 (`{}` and `{:03}`) and for `format!` (a String as the sink). ASSUMED about Display as for the other integers;
+/// `{:03}` is specified for numbers below 1000 only (three digits, zero padded)
+#[verifier::external_body]
+pub fn vx_put_u128(b: &mut BytesMut, n: &u128)
+    ensures bm_view(final(b)) == bm_view(old(b)) + vstd::utf8::encode_utf8(dec_text(*n as nat))
+{ use std::fmt::Write; write!(b, "{}", n).unwrap() }
+#[verifier::external_body]
+pub fn vx_put_u128_pad3(b: &mut BytesMut, n: &u128)
+    ensures *n < 1000 ==> bm_view(final(b)) == bm_view(old(b)) + vstd::utf8::encode_utf8(pad3(*n as nat))
+{ use std::fmt::Write; write!(b, "{:03}", n).unwrap() }
+#[verifier::external_body]
+pub fn vx_sput_str<S: AsRef<str>>(b: &mut String, s: S)
+    ensures final(b)@ == old(b)@ + as_ref_str(&s)
+{ b.push_str(s.as_ref()) }
+#[verifier::external_body]
+pub fn vx_sput_u128(b: &mut String, n: &u128)
+    ensures final(b)@ == old(b)@ + dec_text(*n as nat)
+{ use std::fmt::Write; write!(b, "{}", n).unwrap() }
+#[verifier::external_body]
+pub fn vx_sput_u128_pad3(b: &mut String, n: &u128)
+    ensures *n < 1000 ==> final(b)@ == old(b)@ + pad3(*n as nat)
+{ use std::fmt::Write; write!(b, "{:03}", n).unwrap() }
+#[verifier::external_body]
+pub fn vx_string_new() -> (r: String) ensures r@ == Seq::<char>::empty() { String::new() }
 }
